@@ -71,6 +71,8 @@ class Gen(object):
         if 'min' in t: occ['min_occurs'] = t['min']
         if 'max' in t: occ['max_occurs'] = decimal.Decimal('inf') if t['max'] == 'inf' else t['max']
         if 'nillable' in t: occ['nillable'] = t['nillable']
+        if t.get('choice'): occ['xml_choice_group'] = t['choice']
+        if 'default' in t: occ['default'] = t['default']
         if occ and k != 'attr':
             c = c.customize(**occ)
         return c
